@@ -82,6 +82,14 @@ pub fn scenarios() -> Vec<Scenario> {
         ),
     ];
     v.push(Scenario::new(
+        "C05",
+        "byzantine-options",
+        "proofs that only a Byzantine prover can produce: the whole pipeline run honestly on a coin that is not bound by the library coin's preconditions, for option sets the honest prover refuses (more queries than LDE domain points); decoded and verified under the proof's own options and under security-level policies: error or accept, never a panic",
+        run_c05_byzantine,
+        1_500,
+        40_000,
+    ));
+    v.push(Scenario::new(
         "C07",
         "fri-proof-values",
         "FriProof values as the FRI prover builds them (domains up to 2^14, 255 queries, folding 16, quadratic / cubic elements: layers above 64 KiB) through their own encoding, by slice and by chunked stream",
@@ -564,6 +572,56 @@ where
                 let pol = ["honest-option-set", "proofs-own-options", "min-conjectured", "min-proven"][policy_idx as usize];
                 fail!("panic", p.site(), "{} (policy {pol})", ctx("verify", &p.msg));
             },
+        }
+    }
+    Ok(())
+}
+
+fn run_c05_byzantine() -> Outcome {
+    let _threads = sched::begin(true);
+    let mut inst = draw_instance(&TINY);
+    // a short trace and at least as many queries as the LDE domain has points
+    inst.log_n = 3 + tape::f("byz.log_n", 2) as u32;
+    inst.opts.blowup = inst.opts.blowup.min(1 << (1 + tape::f("byz.log_blowup", 3)));
+    let lde = (1usize << inst.log_n) * inst.opts.blowup;
+    if lde > 255 {
+        return Ok(());
+    }
+    inst.opts.queries = (lde + tape::f("byz.extra_queries", 64) as usize).min(255);
+    stats::sig(inst.class_sig());
+    with_coin_hasher!(inst.combo, H, B => c05_byzantine::<B, H>(&inst))
+}
+
+fn c05_byzantine<B, H>(inst: &Instance) -> Outcome
+where
+    B: StarkField + ExtensibleField<2> + ExtensibleField<3> + 'static,
+    H: ElementHasher<BaseField = B> + Sync + Send,
+{
+    crate::protocol::set_lenient_integer_draws(true);
+    let h = honest::<B, H>(inst);
+    crate::protocol::set_lenient_integer_draws(false);
+    // a prover that cannot get through its own pipeline keeps such a proof out
+    let Some(h) = h else {
+        stats::count("outcome.byzantine_prover_failed", 1);
+        return Ok(());
+    };
+    stats::nontrivial();
+    stats::probe("probe.proof_with_at_least_as_many_queries_as_domain_points");
+    stats::count("fault.more_queries_than_lde_points", 1);
+    let decoded = match guard(|| Proof::from_bytes(&h.bytes)) {
+        Ok(Ok(p)) => p,
+        Ok(Err(_)) => return Ok(()),
+        Err(p) => fail!("panic", p.site(), "Proof::from_bytes on a Byzantine proof: {} :: {}", p.msg, inst.describe()),
+    };
+    for (name, policy) in [
+        ("proofs-own-options", AcceptableOptions::OptionSet(vec![decoded.options().clone()])),
+        ("min-conjectured-0", AcceptableOptions::MinConjecturedSecurity(0)),
+        ("min-proven-0", AcceptableOptions::MinProvenSecurity(0)),
+    ] {
+        match verify_with::<B, H>(decoded.clone(), &h.inputs, &policy) {
+            Ok(Ok(())) => stats::count("outcome.accepted", 1),
+            Ok(Err(_)) => stats::count("outcome.rejected", 1),
+            Err(p) => fail!("panic", p.site(), "verify (policy {name}) of a proof with {} queries over an LDE domain of {} points: {} :: {}", inst.opts.queries, h.proof.lde_domain_size(), p.msg, inst.describe()),
         }
     }
     Ok(())
